@@ -66,6 +66,7 @@ def register(reg):
     for k in (RT_SOCK, RT_ANYIO, RT_TRIO):
         reg.ext_class(k, RT)
     reg.ext_class("DeadlineCancelled", "BaseException")
+    reg.ext_class("ConnectionResetError", "OSError")
     for n in ("anyio.BrokenResourceError", "anyio.ClosedResourceError", "anyio.EndOfStream", "anyio.BusyResourceError",
               "trio.BrokenResourceError", "trio.ClosedResourceError", "trio.TooSlowError", "trio.BusyResourceError"):
         reg.ext_class(n, "Exception")
@@ -78,7 +79,7 @@ def register(reg):
         "BrokenResourceError / ClosedResourceError (TLS failures are wrapped in BrokenResourceError: audit/trio_handshake_errors.py; connect also OSError); fail_after(t) cancels its body "
         "at the deadline and then raises TimeoutError (anyio) / trio.TooSlowError"
     )
-    reg.fields(RT, "RT", ghost=["timeout", "closed"], timeout="val", closed="bool")
+    reg.fields(RT, "RT", ghost=["timeout", "closed", "sent"], timeout="val", closed="bool", sent="bytes")
     reg.fields(SYNC_STREAM, "SyS", const=["_sock"], _sock="ref:" + RT_SOCK)
     reg.fields(ANYIO_STREAM, "AnS", const=["_stream"], _stream="ref:" + RT_ANYIO)
     reg.fields(TRIO_STREAM, "TrS", const=["_stream"], _stream="ref:" + RT_TRIO)
@@ -106,6 +107,7 @@ def register(reg):
         if d is not None and eng.tree == "async":
             extra = ["DeadlineCancelled"]
         k = eng.choose(st, len(names) + len(extra), f"rt.{name}@{node.lineno}", names + extra)
+        ev.data["outcome"] = (names + extra)[k]
         if k > len(raises):
             eng.raise_(st, "DeadlineCancelled", tag={"scope": d, "from": "rt." + name})
         if k > 0:
@@ -122,7 +124,11 @@ def register(reg):
         return VCtx(FailAfter(it.eng.to_val(st, args[0] if args else kwargs.get("seconds", NONE)), "trio.TooSlowError"))
 
     # ---- socket -----------------------------------------------------------------------------------
-    SOCK_ERR = ["socket.timeout", "OSError"]
+    SOCK_ERR = ["socket.timeout", "OSError", "ConnectionResetError"]
+
+    def sent_append(eng, st, obj, data_t):
+        cur = eng.heap_read(st, obj, "RT.sent")
+        eng.heap_write(st, obj, "RT.sent", VBytes(z3.Concat(cur.t, data_t)))
 
     @reg.method(RT, "settimeout")
     def settimeout(it, st, self_v, args, kwargs, node):
@@ -137,12 +143,15 @@ def register(reg):
             eng = it.eng
             data = dict(zip(argnames, args))
             data.update(kwargs)
-            rt_op(it, st, "sock." + name, node, SOCK_ERR, suspends=False, sock=self_v, sock_timeout=eng.heap_read(st, self_v, "RT.timeout"), **data)
+            ev = rt_op(it, st, "sock." + name, node, SOCK_ERR, suspends=False, sock=self_v, sock_timeout=eng.heap_read(st, self_v, "RT.timeout"), **data)
             if result_kind:
                 r = eng.fresh(st, result_kind, name)
                 if result_kind == "int":
+                    # socket.send: accepts a non-empty prefix of the data and returns its length
                     b = eng.coerce(st, data.get("data", VBytes(b"")), "bytes")
                     eng.assume(st, z3.And(r.t >= 1, r.t <= z3.Length(b.t)))
+                    sent_append(eng, st, self_v, z3.Extract(b.t, 0, r.t))
+                ev.data["result"] = r
                 return r
             return NONE
 
@@ -197,9 +206,15 @@ def register(reg):
         @reg.method(cls, name)
         def op(it, st, self_v, args, kwargs, node):
             eng = it.eng
-            rt_op(it, st, "anyio." + name, node, raises, obj=self_v, args=args, kwargs=kwargs)
+            ev = rt_op(it, st, "anyio." + name, node, raises, obj=self_v, args=args, kwargs=kwargs)
+            if name in ("send", "send_all"):
+                # anyio ByteSendStream.send / trio SendStream.send_all transmit the whole item
+                d = args[0] if args else kwargs.get("item", kwargs.get("data"))
+                sent_append(eng, st, self_v, eng.coerce(st, d, "bytes").t)
             if result_kind:
-                return eng.fresh(st, result_kind, name)
+                r = eng.fresh(st, result_kind, name)
+                ev.data["result"] = r
+                return r
             return NONE
 
         return op
@@ -313,8 +328,65 @@ def register(reg):
                         out.append(("operates_on_own_runtime_stream", ("C02", "C03"), o.t == F(c, c.self, f"{short}.{field}")))
                 return out
 
+            def _rt(self, c):
+                return c.new(c.self, f"{short}.{field}")
+
+            def ensures(self, c):
+                if method != "write":
+                    return []
+                rt = self._rt(c)
+                buf = c.eng.coerce(c.st, c.args["buffer"], "bytes").t
+                return [("whole_buffer_is_handed_to_the_runtime_in_order", ("C03", "C13", "C01"),
+                         F(c, rt, "RT.sent") == z3.Concat(F(c, rt, "RT.sent", old=True), buf))]
+
+            def loop_invariant(self, c, ordinal):
+                if method != "write":
+                    return None
+                # the loop-test variable is the still unsent remainder
+                names = [n for n in c.interp.loop_test_names(ordinal) if isinstance(c.st.env.get(n), VBytes)]
+                if not names:
+                    return [("loop_has_an_unsent_remainder_variable", ("C03", "C13"), False)]
+                rest = c.st.env[names[0]].t
+                rt = self._rt(c)
+                buf = c.eng.coerce(c.st, c.args["buffer"], "bytes").t
+                inv = [("sent_plus_remainder_is_the_buffer", ("C03", "C13", "C01"),
+                        z3.Concat(F(c, rt, "RT.sent"), rest) == z3.Concat(F(c, rt, "RT.sent", old=True), buf))]
+                pre = []
+                for e in c.trace:
+                    if e.name == "loop_cut":
+                        break
+                    pre.append(e)
+                if kind == "sync" and any(e.name == "rt.settimeout" for e in pre):
+                    # the socket timeout was set before the loop (not per iteration): then it has to stay set
+                    inv.append(("socket_timeout_stays_the_given_timeout", ("C16",), F(c, rt, "RT.timeout") == expected_deadline(c, kind)))
+                return inv
+
+            def checks(self, c):
+                if method != "read":
+                    return []
+                evs = [e for e in c.trace if e.name in op_events]
+                if not evs:
+                    return [("read_returns_what_the_runtime_returned", ("C02",), False)]
+                e = evs[-1]
+                res = c.eng.coerce(c.st, c.result, "bytes").t
+                o = e.data.get("outcome")
+                if o == "ok":
+                    g = res == e.data["result"].t
+                elif o == "EndOfStream":
+                    g = z3.Length(res) == 0
+                else:
+                    g = False  # a runtime failure must not become a normal (EOF-looking) return
+                return [("read_returns_what_the_runtime_returned", ("C02",), g),
+                        ("one_runtime_read_per_call", ("C02",), len(evs) == 1)]
+
             def exc_checks(self, c, exc):
                 out = []
+                evs = [e for e in c.trace if e.name in op_events and "outcome" in e.data]
+                if evs and exc.cls not in ("Cancelled", "DeadlineCancelled") and exc.cls.startswith(EXC):
+                    o = evs[-1].data["outcome"]
+                    timed_out = o in ("timeout", "DeadlineCancelled", "TimeoutError", "TooSlowError")
+                    if o != "ok":
+                        out.append(("exception_class_matches_the_cause", ("C15", "C16"), exc.cls.endswith("Timeout") == timed_out))
                 if closes_on_failure and exc.cls != "Cancelled" and exc.cls != "DeadlineCancelled":
                     closes = [e for e in c.events("rt.close") if z3.eq(z3.simplify(e.data["obj"].t), z3.simplify(F(c, c.self, f"{short}.{field}")))]
                     closes += c.events("call:" + cls + (".close" if kind == "sync" else ".aclose"))
@@ -328,14 +400,14 @@ def register(reg):
         M.__name__ = f"M_{short}_{method}"
         return M
 
-    stream_contract(SYNC_STREAM, "SyS", "_sock", "sync", "read", {"rt.sock.recv"}, READ)
-    stream_contract(SYNC_STREAM, "SyS", "_sock", "sync", "write", {"rt.sock.send"}, WRITE)
+    stream_contract(SYNC_STREAM, "SyS", "_sock", "sync", "read", {"rt.sock.recv"}, READ, props=("C16", "C15", "C02"))
+    stream_contract(SYNC_STREAM, "SyS", "_sock", "sync", "write", {"rt.sock.send"}, WRITE, props=("C16", "C15", "C03", "C13", "C01"))
     stream_contract(SYNC_STREAM, "SyS", "_sock", "sync", "start_tls", {"rt.ssl.wrap_socket"}, CONNECT, props=("C16", "C15", "C06"), closes_on_failure=True)
-    stream_contract(ANYIO_STREAM, "AnS", "_stream", "anyio", "read", {"rt.anyio.receive"}, READ)
-    stream_contract(ANYIO_STREAM, "AnS", "_stream", "anyio", "write", {"rt.anyio.send"}, WRITE)
+    stream_contract(ANYIO_STREAM, "AnS", "_stream", "anyio", "read", {"rt.anyio.receive"}, READ, props=("C16", "C15", "C02"))
+    stream_contract(ANYIO_STREAM, "AnS", "_stream", "anyio", "write", {"rt.anyio.send"}, WRITE, props=("C16", "C15", "C03", "C13", "C01"))
     stream_contract(ANYIO_STREAM, "AnS", "_stream", "anyio", "start_tls", {"rt.anyio.TLSStream.wrap"}, CONNECT, props=("C16", "C15", "C06"), closes_on_failure=True)
-    stream_contract(TRIO_STREAM, "TrS", "_stream", "trio", "read", {"rt.anyio.receive_some"}, READ)
-    stream_contract(TRIO_STREAM, "TrS", "_stream", "trio", "write", {"rt.anyio.send_all"}, WRITE)
+    stream_contract(TRIO_STREAM, "TrS", "_stream", "trio", "read", {"rt.anyio.receive_some"}, READ, props=("C16", "C15", "C02"))
+    stream_contract(TRIO_STREAM, "TrS", "_stream", "trio", "write", {"rt.anyio.send_all"}, WRITE, props=("C16", "C15", "C03", "C13", "C01"))
     stream_contract(TRIO_STREAM, "TrS", "_stream", "trio", "start_tls", {"rt.anyio.do_handshake"}, CONNECT, props=("C16", "C15", "C06"), closes_on_failure=True)
 
     def close_contract(cls, short, field, kind, method):
